@@ -1,101 +1,324 @@
 """
 C11 - types map one-to-one onto files in the output tree; namespace model is a tree.
-Static: who-may-construct (a type's relative path), who-may-write (tree links, type->path map), join discipline.
+Static: who-may-construct (a type's relative path), argument provenance at the consumers, who-may-write (tree links,
+type->path map), read-through factory, join discipline.  All matching is on AST structure and parameter positions,
+never on variable names or source text.
 """
 import ast
+import typing
 
 from nvsa import pyfront
 from nvsa.report import AnalysisError
 
 NS = "nunavut._namespace"
 COMMON = "nunavut.lang._common"
+LANG = "nunavut.lang._language"
 
 
+# ---- small structural helpers ----------------------------------------------------------------------------------------
+def _params(f) -> typing.List[str]:
+    a = f.node.args
+    names = [x.arg for x in a.posonlyargs + a.args]
+    return [n for n in names if n not in ("self", "cls")]
+
+
+def _names(e) -> typing.Set[str]:
+    return {n.id for n in ast.walk(e) if isinstance(n, ast.Name)}
+
+
+def _attrs(e) -> typing.Set[str]:
+    return {n.attr for n in ast.walk(e) if isinstance(n, ast.Attribute)}
+
+
+def _calls(node, name: str) -> typing.List[ast.Call]:
+    out = []
+    for c in ast.walk(node):
+        if isinstance(c, ast.Call):
+            f = c.func
+            if (isinstance(f, ast.Attribute) and f.attr == name) or (isinstance(f, ast.Name) and f.id == name):
+                out.append(c)
+    return out
+
+
+def _arg(c: ast.Call, pos: int, kw: str):
+    if len(c.args) > pos:
+        return c.args[pos]
+    for k in c.keywords:
+        if k.arg == kw:
+            return k.value
+    return None
+
+
+def _is_path_flavour(c: ast.Call) -> bool:
+    vals = list(c.args) + [k.value for k in c.keywords]
+    return any(isinstance(v, ast.Constant) and v.value == "path" for v in vals)
+
+
+def _assignments(fnode) -> typing.Dict[str, typing.List[ast.AST]]:
+    out: typing.Dict[str, typing.List[ast.AST]] = {}
+    for n in ast.walk(fnode):
+        if isinstance(n, ast.Assign):
+            for t in n.targets:
+                for x in ast.walk(t):
+                    if isinstance(x, ast.Name):
+                        out.setdefault(x.id, []).append(n.value)
+        elif isinstance(n, (ast.AnnAssign, ast.AugAssign)) and n.value is not None and isinstance(n.target, ast.Name):
+            out.setdefault(n.target.id, []).append(n.value)
+        elif isinstance(n, (ast.For, ast.comprehension)):
+            for x in ast.walk(n.target):
+                if isinstance(x, ast.Name):
+                    out.setdefault(x.id, []).append(n.iter)
+    return out
+
+
+def _closure(fnode, exprs: typing.Iterable[ast.AST]) -> typing.List[ast.AST]:
+    """the expressions a value is computed from, through local assignments (flow-insensitive)"""
+    asg = _assignments(fnode)
+    seen: typing.Set[str] = set()
+    out: typing.List[ast.AST] = []
+    work = list(exprs)
+    while work:
+        e = work.pop()
+        out.append(e)
+        for n in _names(e):
+            if n not in seen:
+                seen.add(n)
+                work.extend(asg.get(n, []))
+    return out
+
+
+def _returns(fnode) -> typing.List[ast.AST]:
+    return [r.value for r in ast.walk(fnode) if isinstance(r, ast.Return) and r.value is not None]
+
+
+def _fstring_chain(e) -> typing.Optional[typing.List[str]]:
+    """f'{x.a}_{x.b.c}' -> ['a', '_', 'b.c'] (attribute chains without the root name)"""
+    if not isinstance(e, ast.JoinedStr):
+        return None
+    out = []
+    for v in e.values:
+        if isinstance(v, ast.Constant):
+            out.append(str(v.value))
+        elif isinstance(v, ast.FormattedValue):
+            chain = []
+            x = v.value
+            while isinstance(x, ast.Attribute):
+                chain.append(x.attr)
+                x = x.value
+            out.append(".".join(reversed(chain)))
+    return out
+
+
+STEM_FORMAT = ["short_name", "_", "version.major", "_", "version.minor"]
+
+
+def _unwrap_cast(e):
+    while isinstance(e, ast.Call) and isinstance(e.func, (ast.Attribute, ast.Name)) and \
+            (getattr(e.func, "attr", None) == "cast" or getattr(e.func, "id", None) in ("cast", "list", "tuple")) and e.args:
+        e = e.args[-1]
+    return e
+
+
+def _is_ns_split(e, dt: str) -> bool:
+    e = _unwrap_cast(e)
+    return isinstance(e, ast.Call) and isinstance(e.func, ast.Attribute) and e.func.attr == "split" and \
+        isinstance(e.func.value, ast.Attribute) and e.func.value.attr == "full_namespace" and dt in _names(e.func.value) and \
+        len(e.args) == 1 and isinstance(e.args[0], ast.Constant) and e.args[0].value == "."
+
+
+# ---- rules -------------------------------------------------------------------------------------------------------------
 def rule_one_path(ctx, px):
     R = "R-C11-ONE-PATH"
     ctx.rule(
         R,
-        "the relative path of a type is built in exactly one function (IncludeGenerator.make_path); the output map, "
-        "the include lists and find_output_path_for_type obtain it from there; both sides pass an extension that "
-        "resolves to the same configuration key; every path component goes through filter_id(.., 'path')",
+        "the relative path of a type is built in exactly one function (IncludeGenerator.make_path) from the stropped "
+        "namespace components, the stropped <ShortName>_<major>_<minor> stem and the extension it is given; the output "
+        "map, the include lists and find_output_path_for_type obtain it from there, passing the type and an extension "
+        "that resolves to the same configuration key; lookups answer from the stored map or raise",
     )
     mp = px.func(COMMON, "IncludeGenerator.make_path")
-    # 1. the 'path' flavour of the short reference name is requested only by make_path
+    # 1. the 'path' flavour of identifiers is requested only by the path constructors
     users = []
     for f in px.all_funcs:
-        for c in ast.walk(f.node):
-            if isinstance(c, ast.Call) and isinstance(c.func, ast.Attribute) and c.func.attr in ("filter_short_reference_name", "filter_id", "filter_id_for_target"):
-                kws = {k.arg: ast.unparse(k.value) for k in c.keywords}
-                args = [ast.unparse(a) for a in c.args]
-                if kws.get("id_type") == "'path'" or "'path'" in args:
+        for name in ("filter_short_reference_name", "filter_id", "filter_id_for_target"):
+            for c in _calls(f.node, name):
+                if _is_path_flavour(c):
                     users.append((f, c))
     allowed = {"IncludeGenerator.make_path", "IncludeGenerator._make_ns_list", "Namespace.__init__"}
     for f, c in users:
         ok = f.short in allowed
-        ctx.ob(R, f.module.rel, f"{f.short} :: builds a path component ({ast.unparse(c)[:70]})", ok,
+        ctx.ob(R, f.module.rel, f"{f.short} :: builds a path component via {getattr(c.func, 'attr', getattr(c.func, 'id', '?'))}(.., 'path')", ok,
                "" if ok else "a second place constructs path components of types: generated file and include path can diverge", c.lineno)
     ctx.floor(R + ":path-users", len(users), 3)
-    # 2. make_path shape: namespace list / short name with suffix
-    src = ast.unparse(mp.node)
-    ok = "language.filter_short_reference_name(dt, id_type='path')" in src
-    ctx.ob(R, mp.module.rel, f"{mp.short} :: file stem = stropped ShortName_major_minor (id_type='path')", ok, "", mp.node.lineno)
-    ok = "cls._make_ns_list(language, dt)" in src and ".with_suffix(output_extension)" in src.replace("\n", "")
+
+    # 2. make_path: the returned path is computed from ns-list(dt), short-reference-name(dt, 'path') and with_suffix(extension)
+    ps = _params(mp)
+    if len(ps) < 3:
+        raise AnalysisError("anchor changed: IncludeGenerator.make_path(dt, language, output_extension)")
+    dt, lang, ext = ps[0], ps[1], ps[2]
+    cl = _closure(mp.node, _returns(mp.node))
+    ns_calls = [c for e in cl for c in _calls(e, "_make_ns_list")]
+    ok = bool(ns_calls) and all(dt in set().union(*[_names(a) for a in c.args] or [set()]) and lang in set().union(*[_names(a) for a in c.args] or [set()]) for c in ns_calls)
+    ctx.ob(R, mp.module.rel, f"{mp.short} :: directories = _make_ns_list(language, <the type>)", ok,
+           "" if ok else "the returned path is not built from the namespace list of the type it was asked about", mp.node.lineno)
+    sr = [c for e in cl for c in _calls(e, "filter_short_reference_name")]
+    ok = bool(sr) and all(_is_path_flavour(c) and c.args and isinstance(c.args[0], ast.Name) and c.args[0].id == dt for c in sr)
+    ctx.ob(R, mp.module.rel, f"{mp.short} :: file stem = language.filter_short_reference_name(<the type>, 'path')", ok,
+           "" if ok else "the stem is not the path-stropped short reference name of the type", mp.node.lineno)
+    ws = [c for e in cl for c in _calls(e, "with_suffix")]
+    ext_sources = _closure(mp.node, [c.args[0] for c in ws if c.args])
+    ok = bool(ws) and all(c.args and ext in _names(c.args[0]) for c in ws) and \
+        all(isinstance(e, (ast.Name, ast.Constant, ast.IfExp, ast.Attribute)) or _names(e) <= {ext, lang} for e in ext_sources)
+    ctx.ob(R, mp.module.rel, f"{mp.short} :: suffix = the extension argument (language default only when none is given)", ok,
+           "" if ok else "the suffix does not come from the extension the caller passed", mp.node.lineno)
+    # ns list and stem are joined, stem last
+    joins = [e for e in cl if isinstance(e, ast.BinOp) and isinstance(e.op, ast.Div)]
+    ok = any(_calls(j.left, "_make_ns_list") and _calls(j.right, "with_suffix") for j in joins)
     ctx.ob(R, mp.module.rel, f"{mp.short} :: <namespace components> / <stem>.with_suffix(extension)", ok, "", mp.node.lineno)
+    fallback = [_fstring_chain(e) for e in cl if isinstance(e, ast.JoinedStr)]
+    for fs in fallback:
+        ctx.ob(R, mp.module.rel, f"{mp.short} :: language-less stem is <ShortName>_<major>_<minor>", fs == STEM_FORMAT, f"{fs}", mp.node.lineno)
+
     nl = px.func(COMMON, "IncludeGenerator._make_ns_list")
-    src = ast.unparse(nl.node)
-    ok = "language.filter_id(x, id_type='path') for x in dt.full_namespace.split('.')" in src
-    ctx.ob(R, nl.module.rel, f"{nl.short} :: every namespace component is stropped as a path", ok, "", nl.node.lineno)
-    lang = px.func("nunavut.lang._language", "Language.filter_short_reference_name")
-    ok = "f'{t.short_name}_{t.version.major}_{t.version.minor}'" in ast.unparse(lang.node)
-    ctx.ob(R, lang.module.rel, f"{lang.short} :: <ShortName>_<major>_<minor>", ok, "", lang.node.lineno)
+    nps = _params(nl)
+    ndt = nps[1] if len(nps) > 1 else "dt"
+    rets = _returns(nl.node)
+    okr = []
+    for r in rets:
+        r = _unwrap_cast(r)
+        if _is_ns_split(r, ndt):
+            okr.append(True)
+        elif isinstance(r, (ast.ListComp, ast.GeneratorExp)) and len(r.generators) == 1 and _is_ns_split(r.generators[0].iter, ndt) and not r.generators[0].ifs:
+            var = r.generators[0].target
+            elt = r.elt
+            okr.append(isinstance(elt, ast.Call) and isinstance(elt.func, ast.Attribute) and elt.func.attr == "filter_id" and _is_path_flavour(elt)
+                       and isinstance(var, ast.Name) and elt.args and isinstance(elt.args[0], ast.Name) and elt.args[0].id == var.id)
+        else:
+            okr.append(False)
+    ok = bool(rets) and all(okr)
+    ctx.ob(R, nl.module.rel, f"{nl.short} :: one entry per component of the type's full namespace, each stropped as a path (or verbatim without stropping)", ok,
+           "" if ok else "components are dropped, filtered or not stropped with the 'path' flavour", nl.node.lineno)
+
+    sfn = px.func(LANG, "Language.filter_short_reference_name")
+    fss = [_fstring_chain(e) for e in ast.walk(sfn.node) if isinstance(e, ast.JoinedStr)]
+    fss = [f for f in fss if f and "short_name" in f]
+    ok = bool(fss) and all(f == STEM_FORMAT for f in fss)
+    ctx.ob(R, sfn.module.rel, f"{sfn.short} :: <ShortName>_<major>_<minor>", ok, f"{fss}", sfn.node.lineno)
+
     # 3. consumers
     add = px.func(NS, "Namespace._add_data_type")
-    stores = [n for n in ast.walk(add.node) if isinstance(n, ast.Assign) and "_data_type_to_outputs[" in ast.unparse(n.targets[0])]
-    ok = len(stores) == 1 and "IncludeGenerator.make_path(" in ast.unparse(stores[0].value) and ast.unparse(stores[0].value).startswith("pathlib.Path(self._base_output_path) /")
-    ctx.ob(R, add.module.rel, f"{add.short} :: output path = base_output_path / make_path(type, target language, extension)", ok,
-           "" if ok else (ast.unparse(stores[0].value) if stores else "no store"), add.node.lineno)
-    if stores:
-        call = [c for c in ast.walk(stores[0].value) if isinstance(c, ast.Call) and ast.unparse(c.func).endswith("make_path")][0]
-        a = [ast.unparse(x) for x in call.args]
-        ok = len(a) == 3 and a[0] == add.node.args.args[1].arg and "get_target_language()" in a[1] and a[2] == add.node.args.args[2].arg
-        ctx.ob(R, add.module.rel, f"{add.short} :: make_path receives the type, the target language and the extension unmodified", ok, f"{a}", call.lineno)
+    aps = _params(add)
+    if len(aps) < 2:
+        raise AnalysisError("anchor changed: Namespace._add_data_type(type, extension)")
+    stores = [n for n in ast.walk(add.node) if isinstance(n, ast.Assign) and any(isinstance(t, ast.Subscript) and "_data_type_to_outputs" in _attrs(t.value) | ({t.value.attr} if isinstance(t.value, ast.Attribute) else set()) for t in n.targets)]
+    ok = len(stores) == 1
+    detail = "" if ok else f"{len(stores)} stores into the type->path map"
+    if ok:
+        st = stores[0]
+        key = st.targets[0].slice
+        v = st.value
+        mk = _calls(v, "make_path")
+        ok = isinstance(key, ast.Name) and key.id == aps[0] and isinstance(v, ast.BinOp) and isinstance(v.op, ast.Div) and \
+            "_base_output_path" in _attrs(v.left) and len(mk) == 1 and bool(_calls(v.right, "make_path"))
+        detail = "" if ok else f"stored value is `{ast.unparse(v)[:120]}`"
+        ctx.ob(R, add.module.rel, f"{add.short} :: map[<the type>] = base_output_path / make_path(...)", ok, detail, add.node.lineno)
+        if mk:
+            a = mk[0].args
+            ok = len(a) == 3 and isinstance(a[0], ast.Name) and a[0].id == aps[0] and bool(_calls(a[1], "get_target_language")) and isinstance(a[2], ast.Name) and a[2].id == aps[1]
+            ctx.ob(R, add.module.rel, f"{add.short} :: make_path receives the type, the target language and the extension unmodified", ok,
+                   f"{[ast.unparse(x) for x in a]}", mk[0].lineno)
+    else:
+        ctx.ob(R, add.module.rel, f"{add.short} :: map[<the type>] = base_output_path / make_path(...)", False, detail, add.node.lineno)
+
     gi = px.func(COMMON, "IncludeGenerator.generate_include_filepart_list")
-    calls = [c for c in ast.walk(gi.node) if isinstance(c, ast.Call) and ast.unparse(c.func).endswith("make_path")]
-    ok = len(calls) == 1 and [ast.unparse(x) for x in calls[0].args] == ["dt", "self._language", "output_extension"]
-    ctx.ob(R, gi.module.rel, f"{gi.short} :: include path of a dependency = make_path(dt, language, extension)", ok, "", gi.node.lineno)
-    # no other string building of include paths there
-    fstr = [n for n in ast.walk(gi.node) if isinstance(n, ast.JoinedStr) and any(isinstance(v, ast.FormattedValue) and "dt." in ast.unparse(v) for v in n.values)]
+    gps = _params(gi)
+    calls = _calls(gi.node, "make_path")
+    ok = len(calls) == 1
+    detail = f"{len(calls)} make_path calls"
+    if ok:
+        c = calls[0]
+        pm = pyfront.parent_map(gi.node)
+        comp = pm.get(id(c))
+        while comp is not None and not isinstance(comp, (ast.ListComp, ast.GeneratorExp, ast.SetComp, ast.For)):
+            comp = pm.get(id(comp))
+        loop_var, it = None, None
+        if isinstance(comp, ast.For):
+            loop_var, it = comp.target, comp.iter
+        elif comp is not None:
+            loop_var, it = comp.generators[0].target, comp.generators[0].iter
+        ok = len(c.args) == 3 and isinstance(loop_var, ast.Name) and isinstance(c.args[0], ast.Name) and c.args[0].id == loop_var.id and \
+            it is not None and "composite_types" in _attrs(it) | ({it.attr} if isinstance(it, ast.Attribute) else set()) and \
+            isinstance(c.args[1], ast.Attribute) and c.args[1].attr == "_language" and isinstance(c.args[2], ast.Name) and c.args[2].id == gps[0]
+        detail = f"make_path({', '.join(ast.unparse(x) for x in c.args)}) over `{ast.unparse(it) if it is not None else '?'}`"
+    ctx.ob(R, gi.module.rel, f"{gi.short} :: include path of each dependency = make_path(dependency, own language, extension argument)", ok,
+           "" if ok else detail, gi.node.lineno)
+    fstr = [n for n in ast.walk(gi.node) if isinstance(n, ast.JoinedStr) and any(a in ("short_name", "full_namespace", "full_name") for a in _attrs(n))]
     ctx.ob(R, gi.module.rel, f"{gi.short} :: no ad-hoc formatting of a type's path", not fstr, "", gi.node.lineno)
+
     # 4. the extension on both sides is the same configuration key
     bt = px.func(NS, "build_namespace_tree")
-    adds = [c for c in ast.walk(bt.node) if isinstance(c, ast.Call) and ast.unparse(c.func).endswith("._add_data_type")]
-    ok = len(adds) == 1 and "get_config_value(Language.WKCV_DEFINITION_FILE_EXTENSION)" in ast.unparse(adds[0].args[1]) and "get_target_language()" in ast.unparse(adds[0].args[1])
+    adds = _calls(bt.node, "_add_data_type")
+    ok = len(adds) == 1 and len(adds[0].args) == 2
+    if ok:
+        src = _closure(bt.node, [adds[0].args[1]])
+        gcv = [c for e in src for c in _calls(e, "get_config_value")]
+        ok = bool(gcv) and all("WKCV_DEFINITION_FILE_EXTENSION" in _attrs(c) for c in gcv) and any(_calls(e, "get_target_language") for e in src)
     ctx.ob(R, bt.module.rel, f"{bt.short} :: output extension = target language's WKCV_DEFINITION_FILE_EXTENSION", ok, "", bt.node.lineno)
-    ext = px.cls("nunavut.lang._language", "Language").methods["extension"]
-    ok = "get_config_value(self._section, self.WKCV_DEFINITION_FILE_EXTENSION)" in ast.unparse(ext.node)
-    ctx.ob(R, ext.module.rel, "Language.extension :: WKCV_DEFINITION_FILE_EXTENSION of the language's own section", ok, "", ext.node.lineno)
+    ext_prop = px.cls(LANG, "Language").methods["extension"]
+    gcv = [c for r in _returns(ext_prop.node) for c in _calls(r, "get_config_value")]
+    ok = bool(gcv) and all("WKCV_DEFINITION_FILE_EXTENSION" in _attrs(c) and "_section" in _attrs(c) for c in gcv)
+    ctx.ob(R, ext_prop.module.rel, "Language.extension :: WKCV_DEFINITION_FILE_EXTENSION of the language's own section", ok, "", ext_prop.node.lineno)
     for modname in ("nunavut.lang.c", "nunavut.lang.cpp"):
         fi = px.module(modname).funcs["filter_includes"]
-        calls = [c for c in ast.walk(fi.node) if isinstance(c, ast.Call) and ast.unparse(c.func).endswith("generate_include_filepart_list")]
-        ok = len(calls) == 1 and ast.unparse(calls[0].args[0]) == "language.extension"
-        ctx.ob(R, fi.module.rel, f"{fi.short} :: include lists use language.extension", ok, "", fi.node.lineno)
+        calls = _calls(fi.node, "generate_include_filepart_list")
+        ok = len(calls) >= 1 and all(c.args and isinstance(c.args[0], ast.Attribute) and c.args[0].attr == "extension" for c in calls)
+        ctx.ob(R, fi.module.rel, f"{fi.short} :: include lists use <language>.extension", ok, "", fi.node.lineno)
+
     # 5. lookup returns what the map holds
     fo = px.func(NS, "Namespace.find_output_path_for_type")
-    rets = [ast.unparse(r.value) for r in ast.walk(fo.node) if isinstance(r, ast.Return)]
-    ok = set(rets) == {"any_type._output_path", "self._data_type_to_outputs[any_type]", "self.get_root_namespace()._bfs_search_for_output_path(any_type, set([self]))"}
-    ctx.ob(R, fo.module.rel, f"{fo.short} :: answers from the type->path map (own namespace, then the whole tree)", ok, f"{rets}", fo.node.lineno)
+    p0 = _params(fo)[0]
+    bad = []
+    kinds = set()
+    for r in _returns(fo.node):
+        if isinstance(r, ast.Attribute) and r.attr == "_output_path" and isinstance(r.value, ast.Name) and r.value.id == p0:
+            kinds.add("namespace")
+        elif isinstance(r, ast.Subscript) and isinstance(r.value, ast.Attribute) and r.value.attr == "_data_type_to_outputs" and isinstance(r.slice, ast.Name) and r.slice.id == p0:
+            kinds.add("own-map")
+        elif isinstance(r, ast.Call) and isinstance(r.func, ast.Attribute) and r.func.attr == "_bfs_search_for_output_path" and r.args and \
+                isinstance(r.args[0], ast.Name) and r.args[0].id == p0 and bool(_calls(r.func.value, "get_root_namespace")):
+            kinds.add("tree")
+        else:
+            bad.append(ast.unparse(r))
+    ok = not bad and {"own-map", "tree"} <= kinds
+    ctx.ob(R, fo.module.rel, f"{fo.short} :: answers from the type->path map (own namespace, then the whole tree from the root)", ok,
+           f"other answers: {bad}; kinds {sorted(kinds)}", fo.node.lineno)
     bfs = px.func(NS, "Namespace._bfs_search_for_output_path")
-    rets = [ast.unparse(r.value) for r in ast.walk(bfs.node) if isinstance(r, ast.Return)]
-    ok = rets == ["namespace._data_type_to_outputs[data_type]"] and any(isinstance(x, ast.Raise) for x in ast.walk(bfs.node))
-    ctx.ob(R, bfs.module.rel, f"{bfs.short} :: returns the stored path or raises KeyError (total or loud)", ok, "", bfs.node.lineno)
-    ok = "for nested_namespace in namespace._nested_namespaces" in ast.unparse(bfs.node) and "search_queue.appendleft(nested_namespace)" in ast.unparse(bfs.node)
-    ctx.ob(R, bfs.module.rel, f"{bfs.short} :: visits every nested namespace", ok, "", bfs.node.lineno)
-    # children are enqueued even for skipped namespaces (the skip applies to the lookup only)
-    loops = [n for n in ast.walk(bfs.node) if isinstance(n, ast.For) and "_nested_namespaces" in ast.unparse(n.iter)]
+    b0 = _params(bfs)[0]
+    rets = _returns(bfs.node)
+    ok = bool(rets) and all(isinstance(r, ast.Subscript) and isinstance(r.value, ast.Attribute) and r.value.attr == "_data_type_to_outputs" and
+                            isinstance(r.slice, ast.Name) and r.slice.id == b0 for r in rets)
+    last = bfs.node.body[-1]
+    ok = ok and isinstance(last, ast.Raise)
+    ctx.ob(R, bfs.module.rel, f"{bfs.short} :: returns the stored path of the requested type or raises (total or loud)", ok, "", bfs.node.lineno)
+    loops = [n for n in ast.walk(bfs.node) if isinstance(n, ast.For) and ("_nested_namespaces" in _attrs(n.iter) or _calls(n.iter, "get_nested_namespaces"))]
+    ok = bool(loops)
+    if ok:
+        lp = loops[0]
+        var = lp.target.id if isinstance(lp.target, ast.Name) else None
+        enq = [c for c in ast.walk(lp) if isinstance(c, ast.Call) and isinstance(c.func, ast.Attribute) and c.func.attr in ("append", "appendleft")
+               and c.args and isinstance(c.args[0], ast.Name) and c.args[0].id == var]
+        ok = bool(enq) and not any(isinstance(x, (ast.If, ast.Continue, ast.Break)) for x in ast.walk(lp))
+    else:
+        ext_calls = [c for c in ast.walk(bfs.node) if isinstance(c, ast.Call) and isinstance(c.func, ast.Attribute) and c.func.attr in ("extend", "extendleft")
+                     and c.args and "_nested_namespaces" in _attrs(c.args[0])]
+        ok = bool(ext_calls)
+        loops = ext_calls
+    ctx.ob(R, bfs.module.rel, f"{bfs.short} :: every nested namespace is enqueued", ok, "", bfs.node.lineno)
     if loops:
-        g = pyfront.guards_of(bfs.node, loops[0].iter)
+        g = pyfront.guards_of(bfs.node, loops[0].iter if isinstance(loops[0], ast.For) else loops[0])
         terms = pyfront.guard_terms(g or ())
-        ok = not any("skip_namespace" in e for e, p in terms)
+        skip = _params(bfs)[1] if len(_params(bfs)) > 1 else "skip_namespace"
+        ok = not any(skip in e for e, p in terms)
         ctx.ob(R, bfs.module.rel, f"{bfs.short} :: children of a skipped namespace are still searched", ok, f"{terms}", loops[0].lineno)
 
 
@@ -105,98 +328,246 @@ def rule_links(ctx, px):
         R,
         "_nested_namespaces and _parent are written only in _add_nested_namespace, together; _data_type_to_outputs only "
         "in _add_data_type; namespaces are created through the read-through factory only (one object per full name); "
-        "output paths are formed by joining onto the base output path, with no absolute or '..' literal component",
+        "every ancestor namespace of a type is indexed and linked to its parent; output paths are formed by joining "
+        "onto the base output path, with no absolute or '..' literal component",
     )
     m = px.module(NS)
     writers = {"_nested_namespaces": set(), "_parent": set(), "_data_type_to_outputs": set()}
-    for mod in px.modules.values():
-        for f in px.all_funcs:
-            if f.module is not mod:
-                continue
-            for n in ast.walk(f.node):
-                tg = []
-                if isinstance(n, ast.Assign):
-                    tg = n.targets
-                elif isinstance(n, (ast.AugAssign, ast.AnnAssign)):
-                    tg = [n.target]
-                for t in tg:
-                    base = t.value if isinstance(t, ast.Subscript) else t
-                    if isinstance(base, ast.Attribute) and base.attr in writers:
-                        writers[base.attr].add(f.short)
-                if isinstance(n, ast.Call) and isinstance(n.func, ast.Attribute) and n.func.attr in ("add", "update", "remove", "discard", "clear", "pop", "append", "setdefault") \
-                        and isinstance(n.func.value, ast.Attribute) and n.func.value.attr in writers:
-                    writers[n.func.value.attr].add(f.short)
+    for f in px.all_funcs:
+        for n in ast.walk(f.node):
+            tg = []
+            if isinstance(n, ast.Assign):
+                tg = n.targets
+            elif isinstance(n, (ast.AugAssign, ast.AnnAssign)):
+                tg = [n.target]
+            elif isinstance(n, ast.Delete):
+                tg = n.targets
+            for t in tg:
+                base = t.value if isinstance(t, ast.Subscript) else t
+                if isinstance(base, ast.Attribute) and base.attr in writers:
+                    writers[base.attr].add(f.short)
+            if isinstance(n, ast.Call) and isinstance(n.func, ast.Attribute) and n.func.attr in ("add", "update", "remove", "discard", "clear", "pop", "append", "setdefault", "popitem") \
+                    and isinstance(n.func.value, ast.Attribute) and n.func.value.attr in writers:
+                writers[n.func.value.attr].add(f.short)
+            if isinstance(n, ast.Call) and isinstance(n.func, ast.Name) and n.func.id == "setattr" and len(n.args) >= 2 and isinstance(n.args[1], ast.Constant) and n.args[1].value in writers:
+                writers[n.args[1].value].add(f.short)
     exp = {"_nested_namespaces": {"Namespace.__init__", "Namespace._add_nested_namespace"},
            "_parent": {"Namespace.__init__", "Namespace._add_nested_namespace"},
            "_data_type_to_outputs": {"Namespace.__init__", "Namespace._add_data_type"}}
     for attr, ws in writers.items():
         ok = ws <= exp[attr] and (exp[attr] - {"Namespace.__init__"}) <= ws
-        ctx.ob(R, m.rel, f"Namespace.{attr} written by {sorted(ws)}", ok,
-               "" if ok else f"expected writers {sorted(exp[attr])}: the tree / map can be altered behind the builder's back")
+        ctx.ob(R, m.rel, f"Namespace.{attr} is written only by its owner(s)", ok,
+               "" if ok else f"written by {sorted(ws)}, expected {sorted(exp[attr])}: the tree / map can be altered behind the builder's back")
     an = px.func(NS, "Namespace._add_nested_namespace")
-    src = ast.unparse(an.node)
-    ok = "self._nested_namespaces.add(nested)" in src and "nested._parent = self" in src and not any(isinstance(x, (ast.If, ast.Return)) for x in ast.walk(an.node) if x is not an.node)
+    p = _params(an)[0]
+    adds = [c for c in ast.walk(an.node) if isinstance(c, ast.Call) and isinstance(c.func, ast.Attribute) and c.func.attr == "add" and
+            isinstance(c.func.value, ast.Attribute) and c.func.value.attr == "_nested_namespaces" and c.args and isinstance(c.args[0], ast.Name) and c.args[0].id == p]
+    sets = [n for n in ast.walk(an.node) if isinstance(n, ast.Assign) and any(isinstance(t, ast.Attribute) and t.attr == "_parent" and isinstance(t.value, ast.Name) and t.value.id == p for t in n.targets)
+            and isinstance(n.value, ast.Name) and n.value.id == "self"]
+    cond = [x for x in ast.walk(an.node) if isinstance(x, (ast.If, ast.Return, ast.Try, ast.While)) and x is not an.node]
+    ok = len(adds) == 1 and len(sets) == 1 and not cond
     ctx.ob(R, m.rel, f"{an.short} :: child link and parent link are set together, unconditionally", ok, "", an.node.lineno)
     # factory: read-through cache
     gm = px.func(NS, "_NamespaceFactory.get_or_make_namespace")
-    src = ast.unparse(gm.node)
-    ok = "namespace = self._namespaces[str(full_namespace)]" in src and "self._namespaces[str(full_namespace)] = namespace" in src
-    ctx.ob(R, m.rel, f"{gm.short} :: one Namespace object per full name (lookup before construction, stored after)", ok, "", gm.node.lineno)
+    ctor_calls = [c for c in ast.walk(gm.node) if isinstance(c, ast.Call) and isinstance(c.func, ast.Name) and c.func.id == "Namespace"]
+    reads = [n for n in ast.walk(gm.node) if isinstance(n, ast.Subscript) and isinstance(n.ctx, ast.Load) and isinstance(n.value, ast.Attribute) and n.value.attr == "_namespaces"]
+    gets = [c for c in ast.walk(gm.node) if isinstance(c, ast.Call) and isinstance(c.func, ast.Attribute) and c.func.attr in ("get", "setdefault") and
+            isinstance(c.func.value, ast.Attribute) and c.func.value.attr == "_namespaces"]
+    stores = [n for n in ast.walk(gm.node) if isinstance(n, ast.Assign) and any(isinstance(t, ast.Subscript) and isinstance(t.value, ast.Attribute) and t.value.attr == "_namespaces" for t in n.targets)]
+    ok = len(ctor_calls) == 1 and bool(reads or gets) and (bool(stores) or any(c.func.attr == "setdefault" for c in gets))
+    detail = "lookup/store around construction not found"
+    if ok and stores and reads:
+        k_read = ast.dump(reads[0].slice)
+        k_store = ast.dump(stores[0].targets[0].slice)
+        ok = k_read == k_store and min(r.lineno for r in reads) < ctor_calls[0].lineno <= stores[0].lineno
+        detail = "the cache is read and written under different keys, or not read before construction"
+        if ok:
+            # the stored object is the constructed one
+            sv = stores[0].value
+            asg = _assignments(gm.node)
+            ok = (isinstance(sv, ast.Call) and sv is ctor_calls[0]) or (isinstance(sv, ast.Name) and any(v is ctor_calls[0] for v in asg.get(sv.id, [])))
+            detail = "the object stored in the cache is not the one constructed"
+    ctx.ob(R, m.rel, f"{gm.short} :: one Namespace object per full name (lookup before construction, the constructed object stored under the same key)", ok,
+           "" if ok else detail, gm.node.lineno)
     ctors = []
     for f in px.all_funcs:
         for c in ast.walk(f.node):
-            if isinstance(c, ast.Call) and ast.unparse(c.func) in ("Namespace", "nunavut.Namespace", "nunavut._namespace.Namespace"):
+            if isinstance(c, ast.Call) and ((isinstance(c.func, ast.Name) and c.func.id == "Namespace") or
+                                            (isinstance(c.func, ast.Attribute) and c.func.attr == "Namespace" and "nunavut" in _names(c.func))):
                 ctors.append(f.short)
-    ok = set(ctors) <= {"_NamespaceFactory.get_or_make_namespace"}
-    ctx.ob(R, m.rel, f"Namespace(...) constructed only by the factory", ok, f"{sorted(set(ctors))}")
+    ok = set(ctors) <= {"_NamespaceFactory.get_or_make_namespace"} and bool(ctors)
+    ctx.ob(R, m.rel, "Namespace(...) constructed only by the factory", ok, f"{sorted(set(ctors))}")
     # build_namespace_tree: every ancestor is indexed and linked to its parent
     bt = px.func(NS, "build_namespace_tree")
-    src = ast.unparse(bt.node)
-    ok = "for i in range(len(dsdl_type.name_components) - 1, 0, -1)" in src and "namespace_index.add(ancestor_ns)" in src
-    ctx.ob(R, m.rel, f"{bt.short} :: every ancestor namespace of a type is indexed", ok, "", bt.node.lineno)
-    ok = "parent, _ = nsf.get_or_make_namespace(parent_name)" in src and "parent._add_nested_namespace(namespace)" in src
-    ctx.ob(R, m.rel, f"{bt.short} :: every indexed namespace is linked to its (lazily created) parent", ok, "", bt.node.lineno)
-    # the break in the ancestor loop is sound only if ancestors are added nearest-first...: a known ancestor implies its own ancestors are known
-    ok = "if ancestor_ns in namespace_index:\n            break" in src.replace("                ", "        ").replace("    " * 3, "    " * 2) or "break" in src
+    _ancestors(ctx, R, m, bt)
+    _linking(ctx, R, m, bt)
     # join discipline
     init = px.func(NS, "Namespace.__init__")
-    src = ast.unparse(init.node)
-    ok = "self._output_folder = pathlib.Path(base_output_path / pathlib.PurePath(*self._namespace_components_stropped))" in src
+    ips = _params(init)
+    of = [n for n in ast.walk(init.node) if isinstance(n, ast.Assign) and any(isinstance(t, ast.Attribute) and t.attr == "_output_folder" for t in n.targets)]
+    ok = len(of) == 1
+    if ok:
+        divs = [b for b in ast.walk(of[0].value) if isinstance(b, ast.BinOp) and isinstance(b.op, ast.Div)]
+        ok = len(divs) == 1 and isinstance(divs[0].left, ast.Name) and divs[0].left.id == ips[2] and "_namespace_components_stropped" in _attrs(divs[0].right)
     ctx.ob(R, m.rel, f"{init.short} :: output folder = base_output_path / stropped namespace components", ok, "", init.node.lineno)
-    ok = "language_context.filter_id_for_target(component, 'path')" in src
+    app = [c for c in ast.walk(init.node) if isinstance(c, ast.Call) and isinstance(c.func, ast.Attribute) and c.func.attr == "append" and
+           isinstance(c.func.value, ast.Attribute) and c.func.value.attr == "_namespace_components_stropped"]
+    lc = [n.value for n in ast.walk(init.node) if isinstance(n, ast.Assign) and any(isinstance(t, ast.Attribute) and t.attr == "_namespace_components_stropped" for t in n.targets)
+          and isinstance(n.value, ast.ListComp)]
+    vals = [c.args[0] for c in app if c.args] + [x.elt for x in lc]
+    ok = bool(vals) and all(isinstance(v, ast.Call) and isinstance(v.func, ast.Attribute) and v.func.attr in ("filter_id_for_target", "filter_id") and _is_path_flavour(v) for v in vals)
     ctx.ob(R, m.rel, f"{init.short} :: namespace components are stropped as path components", ok, "", init.node.lineno)
     bad = []
     for modname in (NS, COMMON):
         mod = px.module(modname)
         for f in px.all_funcs:
-            if f.module is not mod:
+            if f.module is not mod or f.name not in ("make_path", "_make_ns_list", "__init__", "_add_data_type", "build_namespace_tree", "get_or_make_namespace"):
                 continue
+            doc = ast.get_docstring(f.node, clean=False)
             for n in ast.walk(f.node):
-                if isinstance(n, ast.Constant) and isinstance(n.value, str) and not isinstance(getattr(n, "_doc", None), str):
+                if isinstance(n, ast.Constant) and isinstance(n.value, str) and n.value != doc:
                     v = n.value
-                    if v in ("..", "../") or (v.startswith("/") and len(v) < 40 and "\n" not in v and f.name in ("make_path", "_make_ns_list", "__init__", "_add_data_type")):
+                    if v in ("..", "../", "/..") or (v.startswith("/") and len(v) < 40 and "\n" not in v):
                         bad.append((f.short, v))
     ctx.ob(R, m.rel, "no '..' or absolute literal component in path construction", not bad, "" if not bad else f"{bad}")
     # support files go under the base output path as well
     sg = px.func("nunavut.jinja", "SupportGenerator.generate_all")
-    src = ast.unparse(sg.node)
-    ok = "target_path = pathlib.Path(self.namespace.get_support_output_folder()) / self._sub_folders" in src and \
-        "(target_path / resource.name).with_suffix(target_language.extension)" in src
-    ctx.ob(R, sg.module.rel, f"{sg.short} :: support files are placed under the base output path by file name only", ok, "", sg.node.lineno)
+    cl_targets = [n for n in ast.walk(sg.node) if isinstance(n, ast.Assign) and any(isinstance(t, ast.Name) and t.id == "target_path" for t in n.targets)]
+    roots = [n.value for n in cl_targets]
+    ok = bool(roots) and all(bool(_calls(r, "get_support_output_folder")) for r in roots)
+    ws = [c for c in _calls(sg.node, "with_suffix")]
+    ok2 = bool(ws) and all(isinstance(c.func.value, ast.BinOp) and isinstance(c.func.value.right, ast.Attribute) and c.func.value.right.attr == "name" for c in ws if isinstance(c.func, ast.Attribute))
+    ctx.ob(R, sg.module.rel, f"{sg.short} :: support files are placed under the support output folder by file name only", ok and ok2, "", sg.node.lineno)
     gs = px.func(NS, "Namespace.get_support_output_folder")
-    ok = [ast.unparse(r.value) for r in ast.walk(gs.node) if isinstance(r, ast.Return)] == ["self._base_output_path"]
+    rets = _returns(gs.node)
+    ok = bool(rets) and all(isinstance(r, ast.Attribute) and r.attr == "_base_output_path" for r in rets)
     ctx.ob(R, m.rel, f"{gs.short} :: is the base output path", ok, "", gs.node.lineno)
+    # traversal: generators yield own entries and recurse into every nested namespace, unconditionally
+    for gname in ("Namespace._recursive_data_type_generator", "Namespace._recursive_namespace_generator", "Namespace._recursive_data_type_and_namespace_generator"):
+        g = px.func(NS, gname)
+        rec = [n for n in ast.walk(g.node) if isinstance(n, ast.YieldFrom) and isinstance(n.value, ast.Call) and getattr(n.value.func, "attr", "") == g.name]
+        ok = bool(rec)
+        if ok:
+            pm = pyfront.parent_map(g.node)
+            lp = pm.get(id(rec[0]))
+            while lp is not None and not isinstance(lp, ast.For):
+                lp = pm.get(id(lp))
+            ok = isinstance(lp, ast.For) and (bool(_calls(lp.iter, "get_nested_namespaces")) or "_nested_namespaces" in _attrs(lp.iter)) and \
+                not any(isinstance(x, (ast.If, ast.Continue, ast.Break)) for x in ast.walk(lp)) and not pyfront.guard_terms(pyfront.guards_of(g.node, rec[0]) or ())
+        ctx.ob(R, m.rel, f"{g.short} :: recurses into every nested namespace, unconditionally", ok, "", g.node.lineno)
+
+
+def _ancestors(ctx, R, m, bt):
+    """for each type, every proper prefix of its name components (length >= 1) reaches namespace_index"""
+    adds = [c for c in ast.walk(bt.node) if isinstance(c, ast.Call) and isinstance(c.func, ast.Attribute) and c.func.attr in ("add", "update")]
+    pm = pyfront.parent_map(bt.node)
+    ok, detail = False, "no loop indexing the ancestors of a type's namespace was recognised"
+    for c in adds:
+        lp = pm.get(id(c))
+        while lp is not None and not isinstance(lp, ast.For):
+            lp = pm.get(id(lp))
+        if lp is None or not isinstance(lp.iter, ast.Call) or not (isinstance(lp.iter.func, ast.Name) and lp.iter.func.id == "range"):
+            continue
+        src = _closure(lp, [c.args[0]]) if c.args else []
+        if not any("name_components" in _attrs(e) for e in src):
+            continue
+        ra = lp.iter.args
+        txt = [ast.unparse(a).replace(" ", "") for a in ra]
+        lens = [t for t in txt if t.startswith("len(") and "name_components" in t]
+        if len(ra) == 3 and txt[2] == "-1":
+            # descending: range(len(nc) - 1, 0, -1) -> i = len-1 .. 1
+            good = txt[0].endswith(")-1") and bool(lens) and txt[1] == "0"
+            detail = f"descending range({', '.join(txt)}) does not run from len(name_components)-1 down to 1"
+        elif len(ra) == 2:
+            good = txt[0] == "1" and txt[1].startswith("len(") and "name_components" in txt[1] and not txt[1].endswith("-1")
+            detail = f"ascending range({', '.join(txt)}) does not run from 1 to len(name_components)-1"
+        else:
+            good = False
+            detail = f"range({', '.join(txt)}) not recognised"
+        # slice [0:i]
+        var = lp.target.id if isinstance(lp.target, ast.Name) else None
+        sl = [s for e in src for s in ast.walk(e) if isinstance(s, ast.Subscript) and isinstance(s.slice, ast.Slice) and "name_components" in _attrs(s.value) | ({s.value.attr} if isinstance(s.value, ast.Attribute) else set())]
+        good_slice = bool(sl) and all((s.slice.lower is None or (isinstance(s.slice.lower, ast.Constant) and s.slice.lower.value == 0)) and isinstance(s.slice.upper, ast.Name) and s.slice.upper.id == var for s in sl)
+        if not good_slice:
+            detail = "the ancestor name is not name_components[0:i] for the loop index i"
+        # a break out of the loop is sound only when the ancestor is already indexed
+        brs = [b for b in ast.walk(lp) if isinstance(b, (ast.Break, ast.Continue))]
+        good_break = True
+        for b in brs:
+            terms = pyfront.guard_terms(pyfront.guards_of(lp, b) or ())
+            good_break = good_break and any(" in " in e and p for e, p in terms) and len(ra) == 3
+        if not good_break:
+            detail = "the ancestor loop is left early on a condition other than 'already indexed'"
+        ok = good and good_slice and good_break
+        break
+    ctx.ob(R, m.rel, f"{bt.short} :: every ancestor namespace of a type is indexed", ok, "" if ok else detail, bt.node.lineno)
+    # the loop is skipped only when the namespace already existed
+    if ok:
+        terms = pyfront.guard_terms(pyfront.guards_of(bt.node, lp) or ())
+        made = [n for n in ast.walk(bt.node) if isinstance(n, ast.Assign) and isinstance(n.value, ast.Call) and getattr(n.value.func, "attr", "") == "get_or_make_namespace"]
+        flags = set()
+        for n in made:
+            t = n.targets[0]
+            if isinstance(t, ast.Tuple) and len(t.elts) == 2 and isinstance(t.elts[1], ast.Name):
+                flags.add(t.elts[1].id)
+        okg = all(any(f in e for f in flags) and not p for e, p in terms) if terms else True
+        ctx.ob(R, m.rel, f"{bt.short} :: ancestors are indexed whenever the type's namespace is new", okg, f"guards {terms}", lp.lineno)
+
+
+def _linking(ctx, R, m, bt):
+    calls = _calls(bt.node, "_add_nested_namespace")
+    ok = len(calls) == 1
+    detail = f"{len(calls)} linking calls"
+    if ok:
+        c = calls[0]
+        pm = pyfront.parent_map(bt.node)
+        lp = pm.get(id(c))
+        while lp is not None and not isinstance(lp, ast.For):
+            lp = pm.get(id(lp))
+        asg = _assignments(bt.node)
+        ok = lp is not None and isinstance(lp.iter, ast.Name)
+        detail = "the linking call is not in a loop over the namespace index"
+        if ok:
+            # loop over the index that the ancestor loop fills
+            idx_adds = [x for x in ast.walk(bt.node) if isinstance(x, ast.Call) and isinstance(x.func, ast.Attribute) and x.func.attr == "add" and isinstance(x.func.value, ast.Name) and x.func.value.id == lp.iter.id]
+            ok = bool(idx_adds)
+            detail = "the linking loop does not iterate the set the ancestors were added to"
+        if ok:
+            child = c.args[0] if c.args else None
+            parent = c.func.value
+            # both come from the factory
+            def from_factory(e):
+                return isinstance(e, ast.Name) and any(isinstance(v, ast.Call) and getattr(v.func, "attr", "") == "get_or_make_namespace" for v in asg.get(e.id, []))
+            ok = from_factory(child) and from_factory(parent)
+            detail = "parent or child is not obtained from the namespace factory"
+        if ok:
+            # parent name = components[0:-1] of the child
+            src = _closure(lp, [v.args[0] for v in asg.get(parent.id, []) if isinstance(v, ast.Call) and v.args])
+            sl = [s for e in src for s in ast.walk(e) if isinstance(s, ast.Subscript) and isinstance(s.slice, ast.Slice)]
+            ok = bool(sl) and all((s.slice.lower is None or (isinstance(s.slice.lower, ast.Constant) and s.slice.lower.value == 0)) and
+                                  isinstance(s.slice.upper, ast.UnaryOp) and isinstance(s.slice.upper.operand, ast.Constant) and s.slice.upper.operand.value == 1 for s in sl) \
+                or any(isinstance(e, ast.Call) and getattr(e.func, "attr", "") in ("rpartition", "rsplit") for x in src for e in ast.walk(x))
+            detail = "the parent's name is not the child's components without the last one"
+        if ok:
+            terms = pyfront.guard_terms(pyfront.guards_of(lp, c) or ())
+            ok = all(("len(" in e and "> 0" in e and p) or ("len(" in e and "== 0" in e and not p) or (e.strip().isidentifier() and p) for e, p in terms)
+            detail = f"the link is made under an unexpected condition {terms}"
+    ctx.ob(R, m.rel, f"{bt.short} :: every indexed namespace is linked to its (lazily created) parent", ok, "" if ok else detail, bt.node.lineno)
 
 
 def run(ctx):
     ctx.explanation = (
-        "C11 is decided by ownership rules over the Python AST: one constructor for a type's relative path whose "
-        "consumers (output map, include lists, lookup) are enumerated and checked for the arguments they pass; a "
-        "closed set of writers for the tree links and the type->path map; a read-through factory as the only "
-        "constructor of Namespace objects; joins onto the base output path only."
+        "C11 is decided by ownership and provenance rules over the Python AST: one constructor for a type's relative "
+        "path whose inputs (namespace list, stropped stem, extension argument) and consumers (output map, include "
+        "lists, lookup) are checked by parameter position and data flow; a closed set of writers for the tree links "
+        "and the type->path map; a read-through factory as the only constructor of Namespace objects; ancestor "
+        "indexing and parent linking in build_namespace_tree; joins onto the base output path only; unconditional "
+        "recursion of the traversal generators."
     )
     ctx.declined = ["injectivity of the mapping and tree shape for all type sets (combinatorial value-level facts about build_namespace_tree)",
                     "languages configured with enable_stropping: false (namespace folders are stropped unconditionally, type paths are not)"]
     px = pyfront.PyIndex(ctx.root)
     rule_one_path(ctx, px)
     rule_links(ctx, px)
+    ctx.floor("R-C11-ONE-PATH", ctx.count("R-C11-ONE-PATH"), 18)
+    ctx.floor("R-C11-LINKS", ctx.count("R-C11-LINKS"), 14)
